@@ -7,7 +7,7 @@ use std::fmt::Debug;
 use vcore::codec::*;
 use vcore::layout::*;
 use vcore::report::*;
-use vcore::tree::all_tags;
+use vcore::tree::*;
 use vcore::values::*;
 use zvt_builder::encoding::{Bcd, BigEndian, Default as Dflt, Encoding, Hex};
 use zvt_builder::length::{Adpu, Fixed, Length, Llv, Lllv, Tlv};
@@ -142,6 +142,202 @@ fn packets(run: &RunInfo, acc_total: &mut Acc) {
     acc_total.merge(acc);
 }
 
+// ---------------------------------------------------------------- packets in other than the canonical form
+
+fn orders(n: usize) -> Vec<Vec<usize>> {
+    fn rec(cur: &mut Vec<usize>, used: &mut Vec<bool>, n: usize, out: &mut Vec<Vec<usize>>) {
+        if cur.len() == n {
+            out.push(cur.clone());
+            return;
+        }
+        for i in 0..n {
+            if !used[i] {
+                used[i] = true;
+                cur.push(i);
+                rec(cur, used, n, out);
+                cur.pop();
+                used[i] = false;
+            }
+        }
+    }
+    if n <= 4 {
+        let mut out = vec![];
+        rec(&mut vec![], &mut vec![false; n], n, &mut out);
+        out.retain(|o| o.iter().enumerate().any(|(i, x)| i != *x));
+        out
+    } else {
+        let mut out: Vec<Vec<usize>> = vec![(0..n).rev().collect()];
+        for r in 1..n {
+            out.push((0..n).map(|i| (i + r) % n).collect());
+        }
+        out
+    }
+}
+
+/// Complete packets whose content is not in the encoder's form: tagged groups in another order,
+/// a group the type does not know at any position of any nesting level, date/time parts with
+/// other than the usual widths. Whatever the decoder makes of the packet alone (value, error, where
+/// it stops), it must make the same of the packet followed by a suffix, with the suffix added to
+/// the remainder; and where the reference decoder accepts the packet, value and stop position
+/// must be the reference's.
+fn noncanonical(run: &RunInfo, acc_total: &mut Acc) {
+    let table = shipped();
+    let cmds = table.commands();
+    let reg = registry();
+    let acc = par_for(cmds.len(), |ti, acc| {
+        let ty = cmds[ti];
+        let codec = Codec::new(&table);
+        let real = reg.iter().find(|r| r.key == ty.key).unwrap();
+        let mut known = vec![];
+        all_tags(&table, ty, &mut known);
+        let foreign: Vec<u16> = vec![[0x7eu16, 0x5a, 0x33, 0x6e].into_iter().find(|t| !known.contains(t)).unwrap(), [0x1f7fu16, 0x1f7e, 0xff7e].into_iter().find(|t| !known.contains(t)).unwrap()];
+        let mut suffixes: Vec<Vec<u8>> = vec![vec![0x00], vec![0x06], vec![0x1f], vec![0xff], vec![0x80, 0x00, 0x00], vec![0x1f, 0x0e, 0x04, 0x20, 0x23, 0x01, 0x01]];
+        known.sort();
+        known.dedup();
+        for t in known.iter().take(6) {
+            let mut g = tag_bytes(*t);
+            g.extend([0x01, 0x05]);
+            suffixes.push(g);
+        }
+        let mut bases: Vec<(String, Vec<u8>)> = vec![];
+        let mut values = vec![baseline(&table, ty)];
+        for pick in 0..3 {
+            values.push(all_present(&table, ty, pick, 2));
+        }
+        for v in &values {
+            let Some(_) = codec.canonical(ty, v) else { continue };
+            let Ok((bytes, spans)) = codec.encode_mapped(ty, v) else { continue };
+            let nodes = build(&bytes, &spans);
+            if render(ty, &nodes).as_deref() != Some(&bytes[..]) {
+                eprintln!("MACHINERY: encoded tree of {} does not render to the reference bytes", ty.key);
+                std::process::exit(EXIT_MACHINERY);
+            }
+            for (lp, _) in levels(&nodes) {
+                let lvl = level(&nodes, &lp).to_vec();
+                let runs = tagged_runs(&lvl);
+                if runs.is_empty() {
+                    continue;
+                }
+                let first_tagged = runs[0].0;
+                let n = runs.len();
+                let mk = |edited: Vec<Node>| -> Option<Vec<u8>> {
+                    let mut t = nodes.clone();
+                    *level_mut(&mut t, &lp) = edited;
+                    render(ty, &t)
+                };
+                if n >= 2 {
+                    for ord in orders(n) {
+                        let mut edited: Vec<Node> = lvl[..first_tagged].to_vec();
+                        for &r in &ord {
+                            let (s0, l) = runs[r];
+                            edited.extend_from_slice(&lvl[s0..s0 + l]);
+                        }
+                        if let Some(p) = mk(edited) {
+                            bases.push((format!("level {lp:?} reordered as {ord:?}"), p));
+                        }
+                    }
+                }
+                for &ft in &foreign {
+                    for plen in [0usize, 2] {
+                        for pos in 0..=n {
+                            let at = if pos < n { runs[pos].0 } else { lvl.len() };
+                            let mut edited = lvl.clone();
+                            edited.insert(at, Node { path: "foreign".into(), tagnum: Some(ft), tag: tag_bytes(ft), style: Len::Ber, body: Body::Leaf(vec![0x5a; plen]), repeated: false, mandatory: false, enc: Enc::Raw, pad: 0, prefix_override: None });
+                            if let Some(p) = mk(edited) {
+                                bases.push((format!("level {lp:?}: foreign group {ft:04x} with {plen} payload bytes at position {pos}"), p));
+                            }
+                        }
+                    }
+                }
+            }
+            // date/time parts of other widths
+            fn dt_paths(nodes: &[Node], path: &mut Vec<usize>, out: &mut Vec<Vec<usize>>) {
+                for (i, n) in nodes.iter().enumerate() {
+                    path.push(i);
+                    match &n.body {
+                        Body::Leaf(_) if n.enc == Enc::Dt => out.push(path.clone()),
+                        Body::Kids(k) => dt_paths(k, path, out),
+                        _ => {}
+                    }
+                    path.pop();
+                }
+            }
+            let mut dts = vec![];
+            dt_paths(&nodes, &mut vec![], &mut dts);
+            for path in dts {
+                let (dir, last) = path.split_at(path.len() - 1);
+                let Body::Leaf(leaf) = level(&nodes, dir)[last[0]].body.clone() else { continue };
+                if leaf.len() != 13 {
+                    continue;
+                }
+                let (d, t) = (leaf[3..7].to_vec(), leaf[10..13].to_vec());
+                let dates: Vec<Vec<u8>> = vec![[vec![0x1f, 0x0e, 4], d.clone()].concat(), [vec![0x1f, 0x0e, 5, 0], d.clone()].concat(), [vec![0x1f, 0x0e, 3], d[1..].to_vec()].concat(), [vec![0x1f, 0x0e, 6, 0, 0], d.clone()].concat()];
+                let times: Vec<Vec<u8>> = vec![[vec![0x1f, 0x0f, 3], t.clone()].concat(), [vec![0x1f, 0x0f, 4, 0], t.clone()].concat(), [vec![0x1f, 0x0f, 2], t[1..].to_vec()].concat(), [vec![0x1f, 0x0f, 1], t[2..].to_vec()].concat()];
+                for (di, dd) in dates.iter().enumerate() {
+                    for (ti2, tt) in times.iter().enumerate() {
+                        if di == 0 && ti2 == 0 {
+                            continue;
+                        }
+                        for swap in [false, true] {
+                            let payload = if swap { [tt.clone(), dd.clone()].concat() } else { [dd.clone(), tt.clone()].concat() };
+                            let mut tr = nodes.clone();
+                            level_mut(&mut tr, dir)[last[0]].body = Body::Leaf(payload);
+                            if let Some(p) = render(ty, &tr) {
+                                bases.push((format!("date/time parts: date in {} bytes, time in {} bytes{}", dd[2], tt[2], if swap { ", time first" } else { "" }), p));
+                            }
+                        }
+                    }
+                }
+            }
+        }
+        bases.sort_by(|a, b| a.1.cmp(&b.1));
+        bases.dedup_by(|a, b| a.1 == b.1);
+        for (what, p) in &bases {
+            acc.count("noncanonical_bases", 1);
+            acc.count("calls", 1);
+            let alone = guarded(|| (real.decode)(p));
+            let describe = |more: String| format!("type {}\nedit   : {what}\npacket : {}\nalone  : {:?}\n{more}", ty.key, hex_short(p), alone);
+            let key0 = format!("c14/noncanonical/{}/{:016x}", ty.key, h64(p));
+            let alone_ok = match &alone {
+                Err(pn) => {
+                    acc.violation(viol(key0.clone(), describe(format!("the decoder panicked: {pn}")), p.len() as u64));
+                    continue;
+                }
+                Ok(Err(_)) => None,
+                Ok(Ok(x)) => Some(x.clone()),
+            };
+            // the reference decoder's view of the packet alone
+            if let (Some((dbg, _rest, _off)), Ok((rv, _used))) = (&alone_ok, codec.decode(ty, p)) {
+                acc.count("cases", 1);
+                let want = codec.debug_string(ty, &rv);
+                if *dbg != want {
+                    acc.violation(viol(format!("{key0}/reference"), describe(format!("the independent layout gives {want}")), p.len() as u64));
+                } else {
+                    acc.count("noncanonical_reference_agreed", 1);
+                }
+            }
+            for suf in &suffixes {
+                acc.count("cases", 1);
+                acc.count("calls", 1);
+                let mut input = p.clone();
+                input.extend_from_slice(suf);
+                let with = guarded(|| (real.decode)(&input));
+                let good = match (&alone_ok, &with) {
+                    (None, Ok(Err(_))) => true,
+                    (Some((dbg, rest, off)), Ok(Ok((d2, r2, o2)))) => d2 == dbg && *r2 == rest + suf.len() && o2 == off,
+                    _ => false,
+                };
+                if good {
+                    acc.count("noncanonical_suffix_untouched", 1);
+                } else {
+                    acc.violation(viol(format!("{key0}/suffix={}", hex_short(suf)), describe(format!("suffix : {}\nwith it: {:?}\nexpected the same value (or an error again) and the suffix added to the remainder", hex_short(suf), with)), (p.len() + suf.len()) as u64));
+                }
+            }
+        }
+    });
+    acc_total.merge(acc);
+}
+
 // ---------------------------------------------------------------- the narrow seam
 
 const SEAM_SUFFIXES: [&[u8]; 12] = [&[], &[0x00], &[0x06], &[0x1f], &[0x27], &[0x81], &[0x82], &[0xff], &[0xf0, 0xf1], &[0x82, 0x00, 0x01], &[0x1f, 0x45, 0x01, 0x09], &[0x27, 0x01, 0x09]];
@@ -258,6 +454,12 @@ pub fn run(run: &RunInfo) -> Summary {
     if !skip_for_replay(run, "c14/packet") {
         packets(run, &mut acc);
     }
+    if !skip_for_replay(run, "c14/noncanonical") {
+        noncanonical(run, &mut acc);
+    }
+    if acc.get("noncanonical_suffix_untouched") > 0 && acc.get("noncanonical_reference_agreed") > 0 {
+        acc.witness("packets in other than the encoder's form decoded alike with and without a suffix");
+    }
     if !skip_for_replay(run, "c14/seam") {
         let a = par_for(1, |_, acc| seams(acc));
         acc.merge(a);
@@ -278,12 +480,13 @@ pub fn run(run: &RunInfo) -> Summary {
         transitions: acc.get("calls"),
         traces_validated: cases,
         distinct_nontrivial: acc.get("suffix_untouched") + acc.get("seam_cases"),
-        rule: format!("31 commands x canonical values (<= {k} deviating fields, all-present rows, sizing rows straddling 127/128 and 254/255/256) x suffixes (every single byte, 49 two-byte and 343 three-byte strings over {{00,06,1F,80,81,82,FF}}, every captured blob, the packet itself, every tag of the type alone and followed by a small group); plus deserialize_tagged for Tlv/Llv/Lllv/Adpu/Fixed<1..8> x integer/BCD/text/hex encodings x tag {{none, 27, 1F45}} x 611 suffixes. distinct_nontrivial = (value, suffix) cases that decoded with the suffix handed back"),
+        rule: format!("31 commands x canonical values (<= {k} deviating fields, all-present rows, sizing rows straddling 127/128 and 254/255/256) x suffixes (every single byte, 49 two-byte and 343 three-byte strings over {{00,06,1F,80,81,82,FF}}, every captured blob, the packet itself, every tag of the type alone and followed by a small group); plus, for baseline and all-present values of every command, the packet with the tagged groups of any nesting level reordered (all orders up to 4 groups), with a group unknown to the type at every position of every level, and with date/time parts announced in 1..6 bytes: the value alone against the independent layout, and value, error and stop position against the same packet followed by up to 12 suffixes; plus deserialize_tagged for Tlv/Llv/Lllv/Adpu/Fixed<1..8> x integer/BCD/text/hex encodings x tag {{none, 27, 1F45}} x 611 suffixes. distinct_nontrivial = (value, suffix) cases that decoded with the suffix handed back"),
         exhaustive: true,
         required_witnesses: vec![
             "suffixes were handed back untouched".into(),
             "packet with extended length header followed by a suffix".into(),
             "length-prefixed containers exercised at the deserialize_tagged seam".into(),
+            "packets in other than the encoder's form decoded alike with and without a suffix".into(),
         ],
         assumptions: vec!["suffixes are taken from a finite alphabet, not all byte strings".into(), "greedy positional containers without an announced length are outside the statement".into()],
         bounds: json!({"deviating_fields_k": k, "suffix_kinds": "single bytes, 2-byte alphabet, blobs, self, type tags"}),
